@@ -147,6 +147,18 @@ class CVIART(BaseART):
     def labels_(self, new_labels_):
         self.base_module.labels_ = new_labels_
 
+    @property
+    def n_clusters(self) -> int:
+        """Get the number of clusters of the base module.
+
+        Returns
+        -------
+        int
+            number of clusters the labels refer to
+
+        """
+        return self.base_module.n_clusters
+
     def CVI_match(self, x, w, c_, params, extra, cache):
         """Evaluate the cluster validity index (CVI) for a match.
 
